@@ -238,12 +238,17 @@ def clone_probe(p):
         with contextlib.redirect_stdout(io.StringIO()):
             tm = spec(("fixed", 1.0), ("fixed", 0.0)); tm.build(template=True); user_quad(tm)
             A = Ocp()
-            A.stage(tm.ocp, t0=0.0, T=2.0); A.stage(tm.ocp, t0=2.0, T=FreeTime(1.5))
+            c1 = A.stage(tm.ocp, t0=0.0, T=2.0); c2 = A.stage(tm.ocp, t0=2.0, T=FreeTime(1.5))
+            ptm = tm.sym[("p", "")][0]
+            tval = float(tm.ocp._param_vals[ptm])
+            c1.set_value(ptm, 0.25); c2.set_value(ptm, 0.75)      # per-clone values given after cloning
             A.solver("ipopt"); A._transcribed
             B = Ocp()
-            s1 = spec(("fixed", 2.0), ("fixed", 0.0)); s1.build(parent=B); user_quad(s1)
-            s2 = spec(("free", 1.5), ("fixed", 2.0)); s2.build(parent=B); user_quad(s2)
+            s1 = spec(("fixed", 2.0), ("fixed", 0.0)); s1.build(parent=B); user_quad(s1); s1.ocp.set_value(s1.sym[("p", "")][0], 0.25)
+            s2 = spec(("free", 1.5), ("fixed", 2.0)); s2.build(parent=B); user_quad(s2); s2.ocp.set_value(s2.sym[("p", "")][0], 0.75)
             B.solver("ipopt"); B._transcribed
+            if float(tm.ocp._param_vals[ptm]) != tval:
+                return dict(status="confirmed", failing_input=dict(p), observed="set_value on a clone changed the template's parameter value from %g to %g" % (tval, float(tm.ocp._param_vals[ptm])))
     except Exception as e:
         return dict(status="confirmed", failing_input=dict(p), observed="%s: %s" % (type(e).__name__, str(e)[:300]), expected="template and clones transcribe")
     oa, ob = A._augmented._method.opti, B._augmented._method.opti
@@ -252,6 +257,9 @@ def clone_probe(p):
     rs = np.random.RandomState(0)
     Fa = ca.Function("Fa", [oa.x, oa.p], [oa.f, oa.g, oa.lbg, oa.ubg]); Fb = ca.Function("Fb", [ob.x, ob.p], [ob.f, ob.g, ob.lbg, ob.ubg])
     pb = np.array(ob.debug.value(ob.p, ob.value_parameters())).reshape(-1) if ob.p.numel() else np.zeros(0)
+    pa = np.array(oa.debug.value(oa.p, oa.value_parameters())).reshape(-1) if oa.p.numel() else np.zeros(0)
+    if not np.allclose(pa, pb, equal_nan=True):
+        return dict(status="confirmed", failing_input=dict(p), observed="parameter values of the cloned OCP %s differ from the directly declared one %s" % (pa.tolist(), pb.tolist()))
     for _ in range(2):
         xv = rs.uniform(0.3, 1.4, size=oa.x.numel())
         ra = [np.array(v).reshape(-1) for v in Fa(xv, pb)]; rb = [np.array(v).reshape(-1) for v in Fb(xv, pb)]
